@@ -379,7 +379,7 @@ class Evidence:
                     rec = json.loads(lines[i])
                     smp = {"phase": label}
                     if isinstance(rec.get("text"), list):
-                        smp["expression"] = uncps(rec["text"])
+                        smp["expression"] = uncps(rec["text"])[:400]
                     smp["record"] = shrink(rec)
                     self.samples.append(smp)
 
@@ -443,7 +443,8 @@ def describe(rec):
         if key in rec and isinstance(rec[key], str):
             parts.append("%s=%s" % (key, rec[key]))
     if "text" in rec and isinstance(rec["text"], list):
-        parts.append("expr=%r" % uncps(rec["text"]))
+        t = uncps(rec["text"])
+        parts.append("expr=%r" % (t if len(t) <= 160 else t[:80] + "...(%d characters)..." % len(t) + t[-20:]))
     if "argv" in rec and isinstance(rec["argv"], list):
         parts.append("jp " + " ".join(repr(uncps(a)) for a in rec["argv"]))
         if rec.get("stdin"):
